@@ -421,6 +421,12 @@ def run_shard(ctx, upto=None):
     conf = TIERS[ctx.tier]
     if upto is None and ctx.shard == 0:
         op_optimised_interpreter(ctx)
+    if upto is None and ctx.shard == ctx.nshards - 1 and not ctx.replay:
+        # the repository's own 579 tests as one more workload, with the passive region-algebra monitor riding on every call they make
+        from .. import repotests
+
+        repotests.run(ctx, "region-algebra")
+
     rng = ctx.rng("ops")
     for i in range(conf["random"] if upto is None else upto + 1):
         op = OPS[i % len(OPS)]
@@ -446,5 +452,5 @@ def replay(ctx, case):
 def inconclusive(merged, tier):
     c = merged["counters"]
     need = ["op_add", "op_sum", "op_mul", "op_join", "op_div", "op_div_n_greater_than_len", "op_mismatch", "parameter_errors_observed",
-            "op_eq", "op_make_silence", "op_construct_partial", "op_assignment", "op_tree", "optimised_interpreter_runs", "checksum_colliding_pairs_compared", "op_div_repeated_after_caller_mutated_result"]
+            "op_eq", "op_make_silence", "op_construct_partial", "op_assignment", "op_tree", "optimised_interpreter_runs", "checksum_colliding_pairs_compared", "op_div_repeated_after_caller_mutated_result", "repo_tests_region_equalities_checked"]
     return [f"monitor never observed {k}" for k in need if c.get(k, 0) == 0]
